@@ -23,7 +23,7 @@ Section AddrText.
   Variable segwit_dec : list N -> list N -> res (N * list N).
   Variable cash_enc : list N -> list N -> list N -> res (list N).
   Variable cash_dec : list N -> list N -> res (list N * list N).
-  Variable b32_enc_nopad : option (list N) -> list N -> list N.
+  Variable b32_enc_nopad : option (list N) -> list N -> res (list N).
   Variable b32_dec : option (list N) -> list N -> res (list N).
   Variable ss58_enc : list N -> N -> res (list N).
   Variable ss58_dec : list N -> res (N * list N).
@@ -96,7 +96,7 @@ Section AddrText.
 
   (* ---- Base32 *)
   Definition algo_checksum (pub32 : list N) : list N := take_last algo_cklen (sha512_256 pub32).
-  Definition algo_encode (pub32 : list N) : list N := b32_enc_nopad None (pub32 ++ algo_checksum pub32).
+  Definition algo_encode (pub32 : list N) : res (list N) := b32_enc_nopad None (pub32 ++ algo_checksum pub32).
   Definition algo_decode (addr : list N) : res (list N) :=
     d <- b32_dec None addr ;;
     _ <- validate_length d (ed25519_compr_len + algo_cklen - 1)%nat ;;
@@ -105,7 +105,7 @@ Section AddrText.
     if valid_pub 2 pub then Ok pub else Err ValueError.
 
   Definition xlm_checksum (payload : list N) : list N := rev (crc16_xmodem payload).
-  Definition xlm_encode (addr_type : N) (pub32 : list N) : list N :=
+  Definition xlm_encode (addr_type : N) (pub32 : list N) : res (list N) :=
     let payload := [addr_type] ++ pub32 in b32_enc_nopad None (payload ++ xlm_checksum payload).
   Definition xlm_decode (addr_type : N) (addr : list N) : res (list N) :=
     d <- b32_dec None addr ;;
@@ -120,9 +120,10 @@ Section AddrText.
     end.
 
   Definition fil_checksum (addr_type : N) (h : list N) : list N := blake2b blake2b32_len ([addr_type] ++ h).
-  Definition fil_encode (pub_u : list N) : list N :=
+  Definition fil_encode (pub_u : list N) : res (list N) :=
     let h := blake2b blake2b160_len pub_u in
-    fil_prefix ++ [48 + fil_secp_type] ++ b32_enc_nopad (Some fil_alphabet) (h ++ fil_checksum fil_secp_type h).
+    e <- b32_enc_nopad (Some fil_alphabet) (h ++ fil_checksum fil_secp_type h) ;;
+    Ok (fil_prefix ++ [48 + fil_secp_type] ++ e).
   Definition fil_decode (addr : list N) : res (list N) :=
     a <- validate_and_remove_prefix addr fil_prefix ;;
     match a with
@@ -137,9 +138,10 @@ Section AddrText.
     end.
 
   Definition nano_checksum (pub32 : list N) : list N := rev (blake2b blake2b40_len pub32).
-  Definition nano_encode (pub32 : list N) : list N :=
+  Definition nano_encode (pub32 : list N) : res (list N) :=
     let payload := nano_pad_dec ++ pub32 ++ nano_checksum pub32 in
-    nano_prefix ++ skipn (length nano_pad_enc) (b32_enc_nopad (Some nano_alphabet) payload).
+    e <- b32_enc_nopad (Some nano_alphabet) payload ;;
+    Ok (nano_prefix ++ skipn (length nano_pad_enc) e).
   Definition nano_decode (addr : list N) : res (list N) :=
     a <- validate_and_remove_prefix addr nano_prefix ;;
     d <- b32_dec (Some nano_alphabet) (nano_pad_enc ++ a) ;;
